@@ -260,6 +260,11 @@ def jobs(tier):
             inc=0.05, limit_hi=40.0, _cost=200)
     add("greedy[finished_session,edf]", stations=[(c, 208, 0), ("CC", 208, 0)], rows=[(1, 1)], sessions=SESS2, algo="greedy", sort="edf", estimator=None, uninterrupted=True, finished=(1,), limit_hi=40.0)
     add("rr[finished_session,fcfs]", stations=[(c, 208, 0), ("AV5", 208, 0)], rows=[(1, 1)], sessions=SESS2, algo="rr", sort="fcfs", estimator="custom", uninterrupted=False, finished=(0,), limit_hi=40.0, inc=0.03)
+    # unequal continuous maxima, the first station vacated / its session finished: list position != station index
+    add("greedy[unequal_maxima,first_vacated,lcfs]", stations=[("CC", 208, 0), ("C0.08", 208, 0), ("C0.04", 208, 0)], rows=[(1, 1, 1)], sessions=[(0, 0, 9, 7), (1, 1, 6, 8), (2, 0, 12, 5)],
+        algo="greedy", sort="lcfs", estimator=None, uninterrupted=False, vacate=(0,), limit_hi=60.0)
+    add("greedy[unequal_maxima,first_finished,fcfs]", stations=[("C0.08", 208, 0), ("C0.04", 208, 0)], rows=[(1, 1)], sessions=SESS2, algo="greedy", sort="fcfs", estimator=None, uninterrupted=True,
+        finished=(0,), limit_hi=60.0)
     add("greedy[vacated_station,fcfs]", stations=[(c, 208, 0), ("CC", 208, 0), ("AV5", 208, 0)], rows=[(1, 1, 1)], sessions=SESS3b, algo="greedy", sort="fcfs", estimator=None, uninterrupted=False, vacate=(1,), limit_hi=60.0)
     add("rr[vacated_station,lrpt]", stations=[(c, 208, 0), ("CC", 208, 0), ("AV5", 208, 0)], rows=[(1, 1, 1)], sessions=SESS3b, algo="rr", sort="fcfs" if q else "lrpt", estimator="rampdown", uninterrupted=True, vacate=(0,), limit_hi=60.0)
     if not q:
